@@ -517,7 +517,31 @@ def svd_repeated_fails(case):
     return None
 
 
+def jacobian_utpm_fails(case):
+    """the reverse sweeps behind CGraph.jacobian at a Taylor-polynomial point with several directions and several outputs:
+    F(x) = A sin(x), so J(x(t)) = A diag(cos x(t)), computed by forward arithmetic alone"""
+    A, x = np.array(case['A']), np.array(case['x'])
+    cg = algopy.CGraph()
+    fx = algopy.Function(x[0, 0].copy())
+    fy = algopy.dot(A, algopy.sin(fx))
+    cg.trace_off()
+    cg.independentFunctionList = [fx]
+    cg.dependentFunctionList = [fy]
+    try:
+        got = cg.jacobian(UTPM(x.copy())).data
+    except Exception as ex:
+        return 'jacobian-utpm-exception: %s' % (str(ex).strip().splitlines()[-1][:100])
+    c = algopy.cos(UTPM(x.copy())).data                       # (D, P, N)
+    want = A[None, None, :, :] * c[:, :, None, :]
+    if got.shape != want.shape or not close(got, want, 1e-10):
+        return 'jacobian-utpm: the rows of cg.jacobian(x(t)) (reverse sweeps, %d directions, %d outputs) differ from A diag(cos x(t)) computed in forward mode (max diff %s)' % (
+            x.shape[1], A.shape[0], maxdiff(got, want) if got.shape == want.shape else 'shape')
+    return None
+
+
 def replay_case(ctx, case):
+    if case.get('op') == 'jacobian-utpm':
+        return jacobian_utpm_fails(case)
     if case.get('op') == 'svd-repeated':
         return svd_repeated_fails(case)
     if case.get('multiout'):
@@ -583,6 +607,13 @@ def run(ctx):
             f = revchecks.op_adjoint_fails(c2)
             if f:
                 ctx.report(c2, 'failure', f)
+    for (D_, P_, M_) in ((1, 3, 2), (2, 2, 2), (2, 3, 3), (1, 1, 2)):
+        case = {'op': 'jacobian-utpm', 'D': D_, 'P': P_, 'A': rand_coeffs(rng, (M_, 3), -2, 2), 'x': rand_coeffs(rng, (D_, P_, 3), -2, 2)}
+        ctx.evaluations += 1
+        ctx.count('jacobian-utpm')
+        f = jacobian_utpm_fails(case)
+        if f:
+            ctx.report(case, 'failure', f)
     # svd at matrices with coinciding / vanishing singular values, through a function of the singular values alone
     for A0 in ([[1., 0.], [0., 1.]], [[0., 1.], [1., 0.]], [[2., 0., 0.], [0., 1., 0.], [0., 0., 1.]], [[1., 0., 0.], [0., 1., 0.]],
                [[1., 0., 0.], [0., 0., 0.]], [[2., 0.], [0., -2.]]):
